@@ -84,12 +84,16 @@ def check_parse(rep, prog):
     where = "ParseUserData.parse"
     n = 0
     kinds = {}
+    builtin_paths = []
     for leaf, path in leaves(r):
         if path == FALSE or unsat(path)[0]:
             continue
         n += 1
         kind, carries, problem = classify(I, leaf, path)
         kinds[kind] = kinds.get(kind, 0) + 1
+        if kind.startswith("builtin"):
+            # the BMC built-in formats are part of the tool, not a plug-in: -P must not turn them into hex dumps
+            builtin_paths.append(path)
         if problem:
             rep.fail(rule, where, "return ...", "a result of the user-data renderer neither presents the payload nor hex-dumps it: %s" % problem)
             continue
@@ -98,6 +102,10 @@ def check_parse(rep, prog):
         u, w = unsat(viol)
         rep.check(u, rule, "result '%s' carries the payload whenever the payload is non-empty" % kind, where, "return ...",
                   "with a non-empty payload the section's data can be dropped: result %r is returned (%s)" % (leaf, env_str(w)))
+    off_ok = bool(builtin_paths) and all(not unsat(and_(pth, not_(plugins)))[0] for pth in builtin_paths)
+    rep.check(off_ok, rule, "built-in JSON/text sections are rendered whether or not parser plug-ins are enabled", where,
+              "if self.creatorID in creatorIDs and ... self.compID == 0x2000", "with parser plug-ins disabled (-P) a BMC built-in format "
+              "section is no longer rendered by the built-in formatter (its result is reachable only with plug-ins enabled)")
     rep.count("feasible result alternatives of parse()", n)
     rep.note("result kinds: %s" % kinds)
     for need in ("plugin", "hexdump", "dict+hexdump", "builtin-json", "builtin-text"):
@@ -256,3 +264,6 @@ def run(rep, prog, thorough):
     check_parse(rep, prog)
     check_text_format(rep, prog)
     check_sections(rep, prog)
+    # "the section still appears": the document assembly keeps one entry per decoded section (rule shared with C01)
+    from .c01 import check_buildoutput
+    check_buildoutput(rep, prog)
